@@ -7,8 +7,8 @@ LEVEL = "exploration"
 EMPTY_COVERAGE = dict(evaluations=0, distinct_nontrivial=0, rule="", samples=[])
 
 
-def release_lib(be, tr, cc="gcc"):
-    opts = OPTS[be] + ["-DMINIMAL=ON", "-DKEY_SHARES=%d" % tr[0], "-DDATA_SHARES=%d" % tr[1], "-DMAX_SHARES=%d" % tr[2]]
+def release_lib(be, tr, cc="gcc", more=()):
+    opts = OPTS[be] + ["-DMINIMAL=ON", "-DKEY_SHARES=%d" % tr[0], "-DDATA_SHARES=%d" % tr[1], "-DMAX_SHARES=%d" % tr[2]] + list(more)
     d = build.cmake_release(opts, tag="c11", cc=cc, targets=("ascon_static",))
     return dict(lib=os.path.join(d, "src", "libascon_static.a"), inc=["-I" + os.path.join(build.REPO, "src"), "-I" + os.path.join(build.REPO, "src", "ascon"), "-I" + d],
                 dir=d, cflags=[], cc=cc, cxx={"gcc": "g++", "clang": "clang++"}[cc], sanflags=[], desc="cmake Release %s k%dd%dm%d %s" % ((be,) + tr + (cc,)))
@@ -103,6 +103,12 @@ def run(ctx):
         ctx.configs.append(lib["desc"])
         for g in [["aead", f] for f in range(5)] + [["mac"], ["prng"], ["cpp"]]:
             jobs.append((exe, g, "asm-clang"))
+    # a C library with neither explicit_bzero nor memset_s: the portable wiping loop of ascon_clean() is the shipped code and runs on every secret
+    lib = release_lib("asm", D, more=["-DHAVE_EXPLICIT_BZERO=OFF", "-DHAVE_MEMSET_S=OFF"])
+    exe = build.build_prog("c11", ["harness/c11.c", "harness/cpp_session.cpp", "ref/ref.c"], lib, opt="-O1", cfg_dep=True)
+    ctx.configs.append(lib["desc"] + " without explicit_bzero / memset_s")
+    for g in ([["aead", f] for f in range(5)] + [["mac"], ["prng"], ["cpp"]]) if t else [["aead", 0], ["aead", 2], ["aead", 3], ["mac"], ["prng"]]:
+        jobs.append((exe, g, "asm-no-explicit_bzero"))
     jobs.sort(key=lambda j: 0 if j[1] == ["aead", 4] else 1)
     common.parallel(lambda j: valgrind_run(ctx, j[0], j[1], j[2]), jobs)
     # ---- monitor 2: instruction / data-address trace equality across secret assignments (lackey)
